@@ -58,7 +58,7 @@ contract('message.Message._payloads_to_bytes', params={'payloads': List(Rec('Pay
                                 'payloads[_i + 1].type == ptype(payloads[_i + 1]))'])})
 
 contract('message.PayloadSK.generate', params={'cleartext': Bytes, 'iv': Bytes, 'crypto': Rec('Crypto')},
-         returns=Rec('PayloadSK'), props=['C07'], requires=['inv_crypto(crypto)', 'len(iv) == 16'],
+         returns=Rec('PayloadSK'), props=['C05', 'C07'], requires=['inv_crypto(crypto)', 'len(iv) == 16'],
          ensures={'pad': '0 <= padlen(len(cleartext)) < 16 and (len(cleartext) + padlen(len(cleartext)) + 1) % 16 == 0',
                   'layout': 'result.ciphertext == iv + aes_enc(crypto.sk_e, iv, padded(cleartext)) '
                             '+ zeros(crypto.integrity.keybits // 8)',
